@@ -2,125 +2,185 @@
    Property theorems only.  Model: SC3.model.Pattern (operational pull iterator [snext]/[run],
    compositional denotation [den]).  A trace is (values, ending); EStop = the stream ended,
    EErr = a Python exception after these values, EMore = "at least these values".
-   [den k m p]: k is a budget (nesting depth explored / items embedded / known length of a
+   [den rnd k m p]: k is a budget (nesting depth explored / items embedded / known length of a
    constant stream); m = Emb (embedded in place: a plain value yields once) or Str (iter(p),
-   stream(p): a plain value is an infinite constant stream). *)
+   stream(p): a plain value is an infinite constant stream); rnd is the draw oracle of the
+   seeded random patterns (result of randrange(a, b) given the seed and the earlier calls on
+   that generator), universally quantified everywhere.
+   [finp p]: p is a finite pattern (syntactic: every repeat count finite, every group of
+   streams pulled together contains a finite pattern; see model/Pattern.v);  [nvb p]: p is a
+   pattern object, not a plain value. *)
 From Coq Require Import ZArith QArith List Bool.
-Require Import SC3.lib.PyNum SC3.model.Pattern SC3.proofs.C13_sound SC3.proofs.C13_meaning.
+Require Import SC3.lib.PyNum SC3.model.Pattern SC3.proofs.C13_sound SC3.proofs.C13_meaning
+               SC3.proofs.C13_complete SC3.proofs.C13_finite.
 Import ListNotations.
+Definition oracle := Z -> hist -> Z -> Z -> Z.
 
-(* --- operational = denotational (compositionality).
-   FULL statement intended: for every pattern of the listed classes.  Proved for every class
-   of [pat]; but [den] is informative for all classes EXCEPT Pswitch1, Ptuple and Pslide (for
-   those it is the empty prefix, so the hypothesis below is never met by an expression whose
-   result depends on them) -- hence the label _partial.  Those three stay covered by the
-   correspondence with the implementation. *)
-Theorem run_eq_den_partial : forall k p l,
-  den k Str p = (l, EStop) ->
-  exists f, forall fuel n, (f <= fuel)%nat -> (length l < n)%nat -> run_pat fuel n p = (l, RStop).
-Proof. exact (fun k p => run_eq_den_any k Str p). Qed.
-Theorem run_eq_den_embedded_partial : forall k p l,
-  den k Emb p = (l, EStop) ->
-  exists f, forall fuel n, (f <= fuel)%nat -> (length l < n)%nat -> run fuel n (init Emb p) = (l, RStop).
-Proof. exact (fun k p => run_eq_den_any k Emb p). Qed.
-(* the raising branch has its own statement *)
-Theorem run_err_eq_den_partial : forall k p l,
-  den k Str p = (l, EErr) ->
-  exists f, forall fuel n, (f <= fuel)%nat -> (length l < n)%nat -> run_pat fuel n p = (l, RErr).
-Proof. exact (fun k p => run_err_den_any k Str p). Qed.
+(* --- operational = denotational, full strength: every finite pattern of the language has ONE
+   complete denotation (the same for every large enough budget) and the iterator, given enough
+   fuel, returns exactly it -- ending normally or with the exception the denotation says. *)
+Theorem run_eq_den : forall (rnd : oracle) p, finp p = true -> nvb p = true ->
+  exists K l e, e <> EMore /\ (forall k, (K <= k)%nat -> den rnd k Str p = (l, e)) /\
+  exists f, forall fuel n, (f <= fuel)%nat -> (length l < n)%nat -> run_pat rnd fuel n p = (l, rend_of e).
+Proof. exact run_eq_den_finite. Qed.
+(* termination: finite patterns always get a complete denotation *)
+Theorem finite_patterns_complete : forall (rnd : oracle) p, finp p = true -> nvb p = true ->
+  exists K, forall k, (K <= k)%nat -> snd (den rnd k Str p) <> EMore.
+Proof. exact finite_complete. Qed.
+Theorem finite_patterns_complete_embedded : forall (rnd : oracle) p, finp p = true ->
+  exists K, forall k, (K <= k)%nat -> snd (den rnd k Emb p) <> EMore.
+Proof. exact finite_complete_embedded. Qed.
+(* the conditional forms (any pattern, any budget at which the denotation happens to be complete) *)
+Theorem run_eq_den_of_complete : forall (rnd : oracle) k p l,
+  den rnd k Str p = (l, EStop) ->
+  exists f, forall fuel n, (f <= fuel)%nat -> (length l < n)%nat -> run_pat rnd fuel n p = (l, RStop).
+Proof. exact (fun rnd k p => run_eq_den_any rnd k Str p). Qed.
+Theorem run_eq_den_embedded_of_complete : forall (rnd : oracle) k p l,
+  den rnd k Emb p = (l, EStop) ->
+  exists f, forall fuel n, (f <= fuel)%nat -> (length l < n)%nat -> run rnd fuel n (init Emb p) = (l, RStop).
+Proof. exact (fun rnd k p => run_eq_den_any rnd k Emb p). Qed.
+Theorem run_err_eq_den : forall (rnd : oracle) k p l,
+  den rnd k Str p = (l, EErr) ->
+  exists f, forall fuel n, (f <= fuel)%nat -> (length l < n)%nat -> run_pat rnd fuel n p = (l, RErr).
+Proof. exact (fun rnd k p => run_err_den_any rnd k Str p). Qed.
 (* every pattern, finite or not, any budget: the denotation is a prefix of what the iterator yields *)
-Theorem den_is_prefix_of_run : forall k p,
-  exists f, forall fuel n, (f <= fuel)%nat -> (length (fst (den k Str p)) < n)%nat ->
-  exists l' r, run_pat fuel n p = (fst (den k Str p) ++ l', r).
-Proof. exact (fun k p => den_prefix_any k Str p). Qed.
-(* the invariant behind all of the above, for every state reachable or not *)
-Theorem den_sound_all_classes : forall k m p, prod (init m p) (den k m p).
+Theorem den_is_prefix_of_run : forall (rnd : oracle) k p,
+  exists f, forall fuel n, (f <= fuel)%nat -> (length (fst (den rnd k Str p)) < n)%nat ->
+  exists l' r, run_pat rnd fuel n p = (fst (den rnd k Str p) ++ l', r).
+Proof. exact (fun rnd k p => den_prefix_any rnd k Str p). Qed.
+(* the invariant behind all of the above: EVERY class of [pat] (Pswitch1, Ptuple, Pslide and the
+   seeded random patterns included) *)
+Theorem den_sound_all_classes : forall (rnd : oracle) k m p, prod rnd (init m p) (den rnd k m p).
 Proof. exact den_sound. Qed.
+(* the iterator is deterministic: two complete traces of one state are equal *)
+Theorem complete_trace_unique : forall (rnd : oracle) s t t',
+  prod rnd s t -> snd t <> EMore -> prod rnd s t' -> snd t' <> EMore -> t' = t.
+Proof. exact prod_complete_unique. Qed.
 
 (* --- infinite repeats: within budget k, inf is any finite repeat count >= k *)
-Theorem inf_truncation : forall k m lst off q (r : Z), (Z.of_nat k <= r)%Z ->
-  den (S k) m (Pn q Inf) = den (S k) m (Pn q (Fin r)) /\
-  den (S k) m (Pser lst Inf off) = den (S k) m (Pser lst (Fin r) off) /\
-  den (S k) m (Pseq lst Inf off) = den (S k) m (Pseq lst (Fin r) off).
+Theorem inf_truncation : forall (rnd : oracle) k m lst off q (r : Z), (Z.of_nat k <= r)%Z ->
+  den rnd (S k) m (Pn q Inf) = den rnd (S k) m (Pn q (Fin r)) /\
+  den rnd (S k) m (Pser lst Inf off) = den rnd (S k) m (Pser lst (Fin r) off) /\
+  (lst <> [] -> den rnd (S k) m (Pseq lst Inf off) = den rnd (S k) m (Pseq lst (Fin r) off)).
 Proof. exact inf_truncation_den. Qed.
 
 (* --- documented meaning of each class *)
-(* Pseq: repeats * size items; item i is lst[(i mod size + offset) mod size]; each embedded in place *)
-Theorem pseq_meaning : forall k m lst (r : nat) off qs,
+Theorem pseq_meaning : forall (rnd : oracle) k m lst (r : nat) off qs,
   lst <> [] -> length qs = (r * length lst)%nat ->
   (forall i, (i < r * length lst)%nat -> nth_error qs i = wrap_at lst (Z.of_nat (i mod length lst) + off)) ->
-  (forall q, In q qs -> snd (den k Emb q) = EStop) -> (r * length lst < k)%nat ->
-  den (S k) m (Pseq lst (Fin (Z.of_nat r)) off) = (flat_map (fun q => fst (den k Emb q)) qs, EStop).
+  (forall q, In q qs -> snd (den rnd k Emb q) = EStop) -> (r * length lst < k)%nat ->
+  den rnd (S k) m (Pseq lst (Fin (Z.of_nat r)) off) = (flat_map (fun q => fst (den rnd k Emb q)) qs, EStop).
 Proof. exact pseq_meaning_den. Qed.
-(* Pser: repeats items in all; item i is lst[(i + offset) mod size] *)
-Theorem pser_cyclic : forall k m lst (r : nat) off qs,
+Theorem pser_cyclic : forall (rnd : oracle) k m lst (r : nat) off qs,
   lst <> [] -> length qs = r ->
   (forall i, (i < r)%nat -> nth_error qs i = wrap_at lst (Z.of_nat i + off)) ->
-  (forall q, In q qs -> snd (den k Emb q) = EStop) -> (r < k)%nat ->
-  den (S k) m (Pser lst (Fin (Z.of_nat r)) off) = (flat_map (fun q => fst (den k Emb q)) qs, EStop).
+  (forall q, In q qs -> snd (den rnd k Emb q) = EStop) -> (r < k)%nat ->
+  den rnd (S k) m (Pser lst (Fin (Z.of_nat r)) off) = (flat_map (fun q => fst (den rnd k Emb q)) qs, EStop).
 Proof. exact pser_cyclic_den. Qed.
-Theorem pn_repeats : forall k m q (n : nat) l,
-  den k Emb q = (l, EStop) -> (n < k)%nat ->
-  den (S k) m (Pn q (Fin (Z.of_nat n))) = (concat (repeat l n), EStop).
+Theorem pn_repeats : forall (rnd : oracle) k m q (n : nat) l,
+  den rnd k Emb q = (l, EStop) -> (n < k)%nat ->
+  den rnd (S k) m (Pn q (Fin (Z.of_nat n))) = (concat (repeat l n), EStop).
 Proof. exact pn_repeats_den. Qed.
-Theorem plen_truncates : forall k m q n l e, den k Str q = (l, e) -> (Z.to_nat n <= length l)%nat ->
-  den (S k) m (Plen q n) = (firstn (Z.to_nat n) l, EStop).
+Theorem plen_truncates : forall (rnd : oracle) k m q n l e, den rnd k Str q = (l, e) -> (Z.to_nat n <= length l)%nat ->
+  den rnd (S k) m (Plen q n) = (firstn (Z.to_nat n) l, EStop).
 Proof. exact plen_truncates_l. Qed.
-Theorem plen_of_shorter_source : forall k m q n l e, den k Str q = (l, e) -> (length l < Z.to_nat n)%nat ->
-  den (S k) m (Plen q n) = (l, e).
+Theorem plen_of_shorter_source : forall (rnd : oracle) k m q n l e, den rnd k Str q = (l, e) -> (length l < Z.to_nat n)%nat ->
+  den rnd (S k) m (Plen q n) = (l, e).
 Proof. exact plen_short_l. Qed.
-Theorem pdrop_drops : forall k m q n l e, den k Str q = (l, e) ->
-  den (S k) m (Pdrop q n) = (skipn (Z.to_nat n) l, e).
+Theorem pdrop_drops : forall (rnd : oracle) k m q n l e, den rnd k Str q = (l, e) ->
+  den rnd (S k) m (Pdrop q n) = (skipn (Z.to_nat n) l, e).
 Proof. exact pdrop_drops_l. Qed.
-Theorem pstutter_repeats_each : forall k m q c l, den (S k) Str q = (l, EStop) -> (length l <= k)%nat ->
-  den (S (S k)) m (Pstutter q (PVal (VN (I c)))) = (flat_map (fun v => repeat v (Z.abs_nat c)) l, EStop).
+Theorem pstutter_repeats_each : forall (rnd : oracle) k m q c l, den rnd (S k) Str q = (l, EStop) -> (length l <= k)%nat ->
+  den rnd (S (S k)) m (Pstutter q (PVal (VN (I c)))) = (flat_map (fun v => repeat v (Z.abs_nat c)) l, EStop).
 Proof. exact pstutter_l. Qed.
-Theorem binop_ends_with_shortest : forall k m o a b la ea lb eb,
-  den k Str a = (la, ea) -> den k Str b = (lb, eb) ->
+(* Pclump with a constant group size n >= 1: the source cut into consecutive groups, all of
+   size n except possibly the last (1..n) *)
+Theorem pclump_groups : forall (rnd : oracle) k m q (n : nat) l, (1 <= n)%nat ->
+  den rnd (S k) Str q = (l, EStop) -> (length l < k)%nat ->
+  let groups := chunk (length l) n l in
+  den rnd (S (S k)) m (Pclump q (PVal (VN (I (Z.of_nat n))))) = (map VL groups, EStop) /\
+  concat groups = l /\
+  Forall (fun g => (1 <= length g <= n)%nat) groups /\
+  Forall (fun g => length g = n) (removelast groups).
+Proof. exact pclump_groups_l. Qed.
+(* Pslide with wrap: r windows of len items; window s starts at start + s*step; indexing wraps *)
+Theorem pslide_windows : forall (rnd : oracle) k m lst (len r : nat) (step start : Z), lst <> [] ->
+  (forall q, In q lst -> snd (den rnd (S k) Emb q) = EStop) -> (r <= k)%nat ->
+  den rnd (S (S k)) m (Pslide lst (PVal (VN (I (Z.of_nat len)))) (PVal (VN (I step))) start true (Fin (Z.of_nat r)))
+  = (windows (den rnd (S k) Emb) lst len start step r, EStop).
+Proof. exact pslide_windows_l. Qed.
+Theorem binop_ends_with_shortest : forall (rnd : oracle) k m o a b la ea lb eb,
+  den rnd k Str a = (la, ea) -> den rnd k Str b = (lb, eb) ->
   (forall va vb, In va la -> In vb lb -> binop o va vb <> None) ->
-  exists l', den (S k) m (Pbinop o a b) = (l', if (length la <=? length lb)%nat then ea else eb) /\
+  exists l', den rnd (S k) m (Pbinop o a b) = (l', if (length la <=? length lb)%nat then ea else eb) /\
              length l' = Nat.min (length la) (length lb) /\
              map Some l' = map (fun ab => binop o (fst ab) (snd ab)) (combine la lb).
 Proof. exact binop_l. Qed.
-Theorem pconst_sums_exactly : forall k m q sum tol out, is_ok sum = true ->
-  den (S k) m (Pconst q sum tol) = (out, EStop) -> (qsum out == toQ sum)%Q.
+Theorem pconst_sums_exactly : forall (rnd : oracle) k m q sum tol out, is_ok sum = true ->
+  den rnd (S k) m (Pconst q sum tol) = (out, EStop) -> (qsum out == toQ sum)%Q.
 Proof. exact pconst_l. Qed.
-Theorem pswitch_embeds_in_place : forall k m lst w iv lw ew z q, den k Str w = (iv :: lw, ew) ->
+Theorem pswitch_embeds_in_place : forall (rnd : oracle) k m lst w iv lw ew z q, den rnd k Str w = (iv :: lw, ew) ->
   as_index iv = Some z -> wrap_at lst z = Some q ->
-  den (S k) m (Pswitch lst w) = tapp (den k Emb q) (tswitch (den k Emb) lst lw ew).
+  den rnd (S k) m (Pswitch lst w) = tapp (den rnd k Emb q) (tswitch (den rnd k Emb) lst lw ew).
 Proof. exact pswitch_l. Qed.
 
-(* --- immutability: two streams of one pattern under ANY interleaving of steps each do what
-   a single stream does; the pattern is a value (nothing to mutate in the model -- on the
-   implementation this is what the interleaved-streams correspondence checks) *)
-Theorem streams_independent : forall sched p,
-  isteps sched (init Str p) (init Str p) =
-  (steps (length (filter (fun b => b) sched)) (init Str p), steps (length (filter negb sched)) (init Str p)).
+(* --- immutability.  Two streams of one pattern under ANY interleaving of steps each do what a
+   single stream does (seeded random patterns included: the oracle is a function of the seed and
+   of the calls made on that stream's own generator) ... *)
+Theorem streams_independent : forall (rnd : oracle) sched p,
+  isteps rnd sched (init Str p) (init Str p) =
+  (steps rnd (length (filter (fun b => b) sched)) (init Str p), steps rnd (length (filter negb sched)) (init Str p)).
 Proof. exact streams_independent_l. Qed.
+(* ... hence both yield the SAME sequence: whatever the schedule and the oracle, the output of
+   one is a prefix of the output of the other *)
+Theorem seeded_same_sequence : forall (rnd : oracle) sched p,
+  let '(l1, l2) := run2 rnd sched p in (exists l', l2 = l1 ++ l') \/ (exists l', l1 = l2 ++ l').
+Proof. exact run2_same_sequence. Qed.
 
 (* --- non-vacuity: the hypotheses are met and the model computes *)
 Definition i (z : Z) := PVal (VN (I z)).
 Definition ex1 := Pbinop BAdd (Pseq [i 1; Pn (Pseq [i 2; i 3] (Fin 1) 0) (Fin 2); i 4] (Fin 2) 1)
-                              (Pstutter (Pseries (I 10) (i 10) Inf) (i 2)).
-Example ex1_den : den 40 Str ex1 =
+                              (Pstutter (Pseries (I 10) (i 10) (Fin 6)) (i 2)).
+Example ex1_den : den no_rnd 40 Str ex1 =
   (map (fun z => VN (I z)) [12; 13; 22; 23; 34; 31; 42; 43; 52; 53; 64; 61]%Z, EStop).
 Proof. vm_compute. reflexivity. Qed.
-Example ex1_run : run_pat 2000 40 ex1 =
+Example ex1_run : run_pat no_rnd 2000 40 ex1 =
   (map (fun z => VN (I z)) [12; 13; 22; 23; 34; 31; 42; 43; 52; 53; 64; 61]%Z, RStop).
 Proof. vm_compute. reflexivity. Qed.
-Example ex_pconst : den 20 Str (Pconst (Pseq [i 1; i 2; i 3; i 4] Inf 0) (I 7) (F (1 # 1024))) =
+Example ex1_finite : finp ex1 = true /\ nvb ex1 = true.
+Proof. vm_compute. split; reflexivity. Qed.
+Example ex_pconst : den no_rnd 20 Str (Pconst (Pseq [i 1; i 2; i 3; i 4] Inf 0) (I 7) (F (1 # 1024))) =
   (map (fun z => VN (I z)) [1; 2; 3; 1]%Z, EStop).
 Proof. vm_compute. reflexivity. Qed.
-Example ex_clump_err : den 20 Str (Pbinop BSub (Pclump (Pseq [i 1; i 2; i 3] (Fin 1) 0) (i 2)) (i 1)) = ([], EErr).
+Example ex_clump_err : den no_rnd 20 Str (Pbinop BSub (Pclump (Pseq [i 1; i 2; i 3] (Fin 1) 0) (i 2)) (i 1)) = ([], EErr).
 Proof. vm_compute. reflexivity. Qed.
-Example ex_slide_nowrap_stops : run_pat 2000 40 (Pslide [i 1; i 2; i 3; i 4; i 5] (i 3) (i (-1)) 0 false (Fin 3)) =
+Example ex_slide_nowrap_stops : run_pat no_rnd 2000 40 (Pslide [i 1; i 2; i 3; i 4; i 5] (i 3) (i (-1)) 0 false (Fin 3)) =
   (map (fun z => VN (I z)) [1; 2; 3]%Z, RStop).
 Proof. vm_compute. reflexivity. Qed.
-Example ex_two_streams : run2 [true; false; false; true; true; true; false; true; true; false; false; false]
-                              (Pseq [i 1; i 2] (Fin 1) 0) =
-  ([VN (I 1); VN (I 2)], [VN (I 1); VN (I 2)]).
+Definition ex_three := Pseq [Pslide [i 1; i 2; i 3; i 4; i 5] (i 3) (i 1) 0 true (Fin 2);
+                             Pswitch1 [Pseq [i 1; i 2; i 3] (Fin 1) 0; i 10] (Pseq [i 0; i 1; i 0] (Fin 1) 0);
+                             Pfun KCollect FInc (Pflatten (Pclump (Pseq [i 1; i 2; i 3] (Fin 1) 0) (i 2)) (i 1))] (Fin 1) 0.
+Example ex_three_den : finp ex_three = true /\ den no_rnd 30 Str ex_three =
+  (map (fun z => VN (I z)) [1; 2; 3; 2; 3; 4; 1; 10; 2; 2; 3; 4]%Z, EStop).
+Proof. vm_compute. split; reflexivity. Qed.
+Example ex_tuple : den no_rnd 30 Str (Ptuple [Pseq [i 1; i 2; i 3] (Fin 1) 0; i 5] (Fin 2)) =
+  ([VT [VN (I 1); VN (I 5)]; VT [VN (I 2); VN (I 5)]; VT [VN (I 3); VN (I 5)];
+    VT [VN (I 1); VN (I 5)]; VT [VN (I 2); VN (I 5)]; VT [VN (I 3); VN (I 5)]], EStop).
 Proof. vm_compute. reflexivity. Qed.
+(* a seeded pattern under an oracle given by a table of draws (seed 7: calls randrange(0,3)) *)
+Definition tbl7 : list (Z * hist * Z * Z * Z) :=
+  [(7, [], 0, 3, 1); (7, [(0, 3)], 0, 3, 0); (7, [(0, 3); (0, 3)], 0, 3, 2)]%Z.
+Example ex_seeded : den (mk_rnd tbl7) 30 Str (PseedRand (Pseq [i 7; i 7] (Fin 1) 0) [i 10; i 20; i 30] (Fin 3)) =
+  (map (fun z => VN (I z)) [20; 10; 30; 20; 10; 30]%Z, EStop).
+Proof. vm_compute. reflexivity. Qed.
+Example ex_two_streams : run2 (mk_rnd tbl7) [true; false; false; true; true; true; false; true; true; false; false; false]
+                              (PseedRand (i 7) [i 10; i 20; i 30] (Fin 2)) =
+  (map (fun z => VN (I z)) [20; 10]%Z, map (fun z => VN (I z)) [20; 10]%Z).
+Proof. vm_compute. reflexivity. Qed.
+Example ex_emptied : run_pat no_rnd 100 10 (Pseq [i 1; Pseq [] (Fin 2) 3; Place [] (Fin 1) 0; i 2] (Fin 1) 0) =
+  ([VN (I 1); VN (I 2)], RStop) /\ run_pat no_rnd 100 10 (Pseq [i 1; Pser [] (Fin 1) 0] (Fin 1) 0) = ([VN (I 1)], RErr).
+Proof. vm_compute. split; reflexivity. Qed.
 
-Print Assumptions run_eq_den_partial.
+Print Assumptions run_eq_den.
 Print Assumptions pconst_sums_exactly.
-Print Assumptions streams_independent.
+Print Assumptions seeded_same_sequence.
